@@ -5,11 +5,29 @@
 EXTENDS YParser, YRender, YDamage, TLC, Json
 CONSTANTS L, D, C
 VARIABLES tape, done, op, pl
+Base == IF tape = <<>> THEN <<>> ELSE Stream(tape, D).txt
+\* Truncation damage: a flow collection with tape-driven content (nested collections, single pairs, explicit keys, multi-line
+\* layout, comments) whose closing bracket never comes -- as the last document of the stream, nested under a block sequence,
+\* or followed by a block mapping entry at column 0. Ill-formed whatever the content.
+NTrunc == 6
+TruncDamage(k, base) ==
+  LET sep == IF base = <<>> THEN <<>> ELSE <<".", ".", ".", "\n">>
+      cnt == 1 + (Cell(tape, 1) % 3)
+      ml == (Cell(tape, 2) % 2) = 1
+      seqI(n) == FlowSeqItems(tape, St(3, 1, <<>>), n, 1, cnt, ml).txt
+      mapI(n) == FlowMapItems(tape, St(3, 1, <<>>), n, 1, cnt, ml).txt
+  IN IF k = 1 THEN base \o sep \o <<"-", "-", "-", " ", "[">> \o seqI(-1) \o <<"\n">>
+     ELSE IF k = 2 THEN base \o sep \o <<"-", "-", "-", " ", "{">> \o mapI(-1) \o <<"\n">>
+     ELSE IF k = 3 THEN base \o sep \o <<"-", "-", "-", "\n", "t", "o", "p", ":", "\n", " ", " ", "-", " ", "x", "\n", " ", " ", "-", " ", "[">> \o seqI(2) \o <<"\n">>
+     ELSE IF k = 4 THEN base \o sep \o <<"-", "-", "-", "\n", "k", ":", " ", "{">> \o mapI(0) \o <<"\n", "z", ":", " ", "w", "\n">>
+     ELSE IF k = 5 THEN base \o sep \o <<"-", "-", "-", "\n", "k", ":", " ", "[">> \o seqI(0) \o <<"\n", ".", ".", ".", "\n">>
+     ELSE base \o sep \o <<"-", "-", "-", "\n", "-", " ", "{">> \o mapI(0) \o <<"\n", "-", "-", "-", " ", "a", "\n">>
+NOps == Len(DamageOps) + NTrunc
+OpName == IF op <= Len(DamageOps) THEN DamageOps[op].name ELSE <<"unclosed-flow-seq-last-document", "unclosed-flow-map-last-document", "unclosed-flow-seq-nested", "unclosed-flow-map-then-block-entry", "unclosed-flow-seq-then-document-end", "unclosed-flow-map-then-document-start">>[op - Len(DamageOps)]
+G == IF op <= Len(DamageOps) THEN Damaged(Base, DamageOps[op], pl) ELSE TruncDamage(op - Len(DamageOps), Base)
 Init == tape = <<>> /\ done = FALSE /\ op = 0 /\ pl = 0
 Next == \/ (~done /\ Len(tape) < L /\ \E c \in 0..(C - 1) : tape' = Append(tape, c) /\ UNCHANGED <<done, op, pl>>)
-        \/ (~done /\ (Len(tape) = L \/ Len(tape) = 0) /\ done' = TRUE /\ tape' = tape /\ op' \in 1..Len(DamageOps) /\ pl' \in 0..1)
-Base == IF tape = <<>> THEN <<>> ELSE Stream(tape, D).txt
-G == Damaged(Base, DamageOps[op], pl)
+        \/ (~done /\ (Len(tape) = L \/ Len(tape) = 0) /\ done' = TRUE /\ tape' = tape /\ op' \in 1..NOps /\ pl' \in 0..1)
 ModelRejects == RunAll(G, PInit(FALSE), <<>>).err # ""
-Out == done => PrintT(<<"REPLAY", ToJson([info |-> <<DamageOps[op].name, pl>>, text |-> G, reject |-> TRUE, model |-> ModelRejects])>>)
+Out == done => PrintT(<<"REPLAY", ToJson([info |-> <<OpName, pl>>, text |-> G, reject |-> TRUE, model |-> ModelRejects])>>)
 ===========================================================================
